@@ -635,6 +635,58 @@ fn one_tuple(ctx: &Ctx, rng: &mut Rng, st: &mut St, case: u64) {
     }
 }
 
+/// A damaged file (cut short at a random place) is the same bytes whoever delivers them: the outcome
+/// of the load (accepted / refused) and the machine afterwards – the host carries on after an error –
+/// do not depend on the asset implementation either.
+fn damaged_file_twin(ctx: &Ctx, rng: &mut Rng, st: &mut St, case: u64) {
+    let is128 = rng.bool();
+    let td = repo_root().join("rustzx-test/test_data");
+    let full = gunzip(&td.join(if is128 { "sound.128k.sna.gz" } else { "sound.48k.sna.gz" }));
+    let cut = match rng.below(4) {
+        0 => rng.below(27) as usize,
+        1 => 27 + rng.below(200) as usize,
+        2 => full.len() - 1 - rng.below(20000) as usize,
+        _ => rng.below(full.len() as u64) as usize,
+    };
+    let bytes = full[..cut].to_vec();
+    let run = |kind: u8| -> (bool, u64, u64) {
+        let mut m = Machine::new(Cfg::of(is128));
+        let r = match kind {
+            0 => m.emu.load_snapshot(Snapshot::Sna(rustzx_core::host::BufferCursor::new(bytes.clone()))).is_ok(),
+            1 => m.emu.load_snapshot(Snapshot::Sna(mem_asset(bytes.clone()))).is_ok(),
+            2 => m.emu.load_snapshot(Snapshot::Sna(DynAsset(Box::new(ShortRead::new(bytes.clone(), 1 + (cut % 97)))))).is_ok(),
+            _ => m.emu.load_snapshot(Snapshot::Sna(make_asset(AssetKind::File, &td, &bytes, case * 8 + 7))).is_ok(),
+        };
+        // the host logs the error and keeps going
+        m.dbg().mode = DbgMode::Never;
+        m.emu.set_speed(EmulationMode::FrameCount(1));
+        for _ in 0..3 {
+            let _ = m.emu.emulate_frames(Duration::from_secs(100));
+        }
+        (r, m.digest_core(), m.digest_video())
+    };
+    let names = ["in-memory cursor", "boxed in-memory asset", "short reads", "real file"];
+    let base = match crate::host::catch(|| run(0)) {
+        Ok(b) => b,
+        Err(_) => return, // loaders that panic are C15's business
+    };
+    st.tuples += 1;
+    st.kinds.insert("damaged-file|asset-kinds".into());
+    for k in 1..4u8 {
+        let Ok(o) = crate::host::catch(|| run(k)) else { return };
+        st.comparisons += 1;
+        st.frames += 3;
+        if o != base {
+            ctx.violation(
+                "asset-kind:damaged-file",
+                &format!("{}K SNA cut to {} of {} bytes: delivered by '{}' the load {} and the machine afterwards differs from delivery by '{}' (load {})", if is128 { 128 } else { 48 }, cut, full.len(), names[k as usize], if o.0 { "succeeds" } else { "fails" }, names[0], if base.0 { "succeeds" } else { "fails" }),
+                jobj! {"case"=>case,"is128"=>is128,"cut"=>cut,"asset"=>names[k as usize]},
+            );
+            return;
+        }
+    }
+}
+
 pub fn run(ctx: &Ctx) -> Evidence {
     let n = ctx.scale(160, 3_000) as usize;
     let shards = 32usize;
@@ -649,10 +701,14 @@ pub fn run(ctx: &Ctx) -> Evidence {
             }
             let mut rng = Rng::fork(ctx.seed ^ 0xC16, case);
             one_tuple(ctx, &mut rng, &mut st, case);
+            for k in 0..3 {
+                let mut r2 = Rng::fork(ctx.seed ^ 0xC16D, case * 4 + k);
+                damaged_file_twin(ctx, &mut r2, &mut st, case * 4 + k);
+            }
         }
         st
     });
-    let mut ev = Evidence::new("scenarios (ROM boot, random programs with interrupts/port I/O, the repository's sound/keyboard snapshots, tape loading in real time and fast) with key events at frame boundaries, each run under the reference driving (one frame per call) and under alternatives: repetition, FrameCount(n) partitions, Max mode with scripted stopwatch readings (zero, increasing, non-monotonic, jumps), breakpoints every k-th instruction / at random instruction counts with resume, sound off, AY mixing off, audio drained every 3rd frame / never, file / gzip / short-read assets; digests compared at every event frame and at the end. distinct = (scenario kind, driving kind) pairs");
+    let mut ev = Evidence::new("scenarios (ROM boot, random programs with interrupts/port I/O, the repository's sound/keyboard snapshots, tape loading in real time and fast) with key events at frame boundaries, each run under the reference driving (one frame per call) and under alternatives: repetition, FrameCount(n) partitions, Max mode with scripted stopwatch readings (zero, increasing, non-monotonic, jumps), breakpoints every k-th instruction / at random instruction counts with resume, sound off, AY mixing off, audio drained every 3rd frame / never, file / gzip / short-read assets; digests compared at every event frame and at the end; plus snapshots cut short at random places delivered by a bare in-memory cursor, a boxed one, short reads and a real file (same outcome, same machine afterwards). distinct = (scenario kind, driving kind) pairs");
     let mut kinds = HashSet::new();
     for r in res {
         ev.evaluations += r.tuples;
